@@ -98,6 +98,54 @@ def check_get_p(ctx):
         ctx.ob("C08.1", site, same_req and len(call.args) >= 4 and [x.key() for x in call.args[1:4]] == ["$input_index", "$axis", "$axis_index"],
                "obs and probabilities come from one request for the same input/axis/slice", loc=loc, msg="requests differ: %s" % [str(a)[:80] for a in calls])
     ctx.need(n >= 3, "%s: fewer than 3 requesting branches" % site)
+    # by cases: which ends of the interval are finite decides what is requested and how p is composed - whatever the branch conditions look like
+    inf = S("inf")
+
+    def truth(cond, lo_fin, up_fin):
+        sub = {}
+        if not lo_fin:
+            sub["interval.lower"] = Rat.const(0) - inf
+        if not up_fin:
+            sub["interval.upper"] = inf
+        c2 = form.subst(cond, sub) if sub else cond
+
+        def fin(a):
+            if a.func in ("cmp_ne", "cmp_eq") and isinstance(a.args[0], Rat):
+                syms = a.args[0].symbols()
+                if ("interval.lower" in syms or "interval.upper" in syms) and "inf" in syms:
+                    return Rat.const(1 if a.func == "cmp_ne" else 0)      # a finite bound never equals +-inf
+            return None
+        c3 = form.map_atoms(c2, fin)
+        return c3.const_value()
+    for lo_fin, up_fin in ((True, True), (True, False), (False, True)):
+        feasible = []
+        for o in outs:
+            ok_path = True
+            for c_, pol in o.conds:
+                tv = truth(c_, lo_fin, up_fin)
+                if tv is not None and bool(tv) != bool(pol):
+                    ok_path = False
+            if ok_path:
+                feasible.append(o)
+        what = "interval with %s lower and %s upper end" % ("finite" if lo_fin else "infinite", "finite" if up_fin else "infinite")
+        ctx.need(feasible, "%s: no path for an %s" % (site, what))
+        for o in feasible:
+            obsP, p = o.value
+            calls = q.atoms(p, "call:data.get_scores") + q.atoms(obsP, "call:data.get_scores")
+            fields = [x.key() for x in calls[0].args[0]] if calls and isinstance(calls[0].args[0], tuple) else []
+            want_fields = ["call:verif.field.Obs()"] + (["call:verif.field.Threshold($interval.lower)"] if lo_fin else []) + \
+                (["call:verif.field.Threshold($interval.upper)"] if up_fin else [])
+            okf = sorted(fields) == sorted(want_fields)
+
+            def col(key):
+                return form.apply("getitem", [Rat.of_atom(calls[0]), Rat.const(fields.index(key))])
+            okp = False
+            if okf:
+                want = (col(want_fields[-1]) if up_fin else Rat.const(1)) - (col(want_fields[1]) if lo_fin else Rat.const(0))
+                okp = isinstance(p, Rat) and p.equals(want)
+            ctx.ob("C08.1", site, okf and okp, "%s: requests %s and p = %s" % (what, [k.split("field.")[-1] for k in want_fields],
+                                                                            "P(upper) - P(lower)" if lo_fin and up_fin else ("1 - P(lower)" if lo_fin else "P(upper)")),
+                   loc=prog.loc(m, o.node), msg="for an %s get_p requests %s and returns p = %s" % (what, [k.split("field.")[-1] for k in fields], str(p)[:160]))
     # get_q
     site = "verif.metric.get_q"
     f = prog.func(site)
